@@ -10,6 +10,7 @@ import c17_judge
 
 LEVEL = "fault_enumeration"
 HARNESS = "c17_httpclient"
+BUILDS = [(HARNESS, "plain"), (HARNESS, "asan"), (HARNESS, "tsan")]   # quick: plain; thorough: all three
 TIMING_RERUNS = 3
 
 
@@ -20,7 +21,7 @@ def _run_batch(ctx, binary, cases, tag):
     recs, problems, rrs = {}, [], []
     todo = list(cases)
     rounds = 0
-    while todo and rounds < 6:
+    while todo and rounds < 4:
         rounds += 1
         base = os.path.join(ctx.tmp, "%s-%d" % (tag, rounds))
         with open(base + ".cases", "w") as fh:
@@ -147,7 +148,7 @@ def _enumerate(ctx, geo, thorough):
     cases, spaces = [], {}
 
     def space(name, universe, chosen):
-        spaces[name] = dict(size=len(universe), run=len(chosen), complete=len(chosen) == len(universe))
+        spaces[name] = dict(size=len(universe), run=len(chosen), exhaustive=len(chosen) == len(universe))
         return chosen
 
     # A. one faulty request: method × budget × fault kind × position × stop index
@@ -187,7 +188,9 @@ def _enumerate(ctx, geo, thorough):
     uniB = [(m, b, f, s) for m in methods for f in cc.silence_positions(geo, m, exhaustive=thorough and m in ("GET", "POST"))
             for b in ((0, 1, 2, 3) if not thorough else (0, 1, 3)) for s in (None, 1)]
     if thorough:
-        pickB = [u for u in uniB if u[1] <= 1 or u[2].kind != "silence-after-response-bytes" or u[2].pos in geo.resp_boundaries(u[0])]
+        # every response offset only with budgets {0,1}; boundary offsets with all budgets — that IS the thorough universe
+        uniB = [u for u in uniB if u[1] <= 1 or u[2].kind != "silence-after-response-bytes" or u[2].pos in geo.resp_boundaries(u[0])]
+        pickB = uniB
     else:
         pickB = []
         for m in methods:
@@ -205,7 +208,7 @@ def _enumerate(ctx, geo, thorough):
     for m, b, j, f in space("refused-connects:method*budget*count*then", uniC, pickC):
         cases.append(cc.single_case(rng, m, b, f, None, refuse=j))
     uniC2 = [(m, b, j, f) for m in methods for b in (0, 1, 2) for j in (1, 2) for f in after[:3]]
-    pickC2 = rng.sample(uniC2, 120 if thorough else 14)
+    pickC2 = uniC2 if thorough else rng.sample(uniC2, 14)
     for m, b, j, f in space("blackholed-connects:method*budget*count*then", uniC2, pickC2):
         cases.append(cc.single_case(rng, m, b, f, None, blackhole=j, rt=cc.LONG_RT if not f.silent() else 150))
 
@@ -236,14 +239,14 @@ def _enumerate(ctx, geo, thorough):
     for m, b, f, s, n in space("kept-alive:method*budget*fault*position*{2nd,3rd}", uniE, pickE):
         cases.append(_kept_alive_case(rng, m, b, f, s, n))
     silE = [(m, b, f, n) for m in methods for f in cc.silence_positions(geo, m)[:4] for b in (0, 1) for n in (2, 3)]
-    for m, b, f, n in space("kept-alive-silence:method*budget*position*{2nd,3rd}", silE, rng.sample(silE, 200 if thorough else 16)):
+    for m, b, f, n in space("kept-alive-silence:method*budget*position*{2nd,3rd}", silE, silE if thorough else rng.sample(silE, 16)):
         cases.append(_kept_alive_case(rng, m, b, f, None, n))
 
     # F. 2–8 concurrent callers on one client
     nF = 600 if thorough else 100
     for i in range(nF):
         cases.append(_concurrent_case(rng, methods, silent=(i % 8 == 7)))
-    spaces["concurrent:2-8-callers(sampled)"] = dict(size=None, run=nF, complete=False)
+    spaces["concurrent:2-8-callers(sampled)"] = dict(size=None, run=nF, exhaustive=False)
 
     # G. reuseConnections=false: the client itself says "Connection: close"
     uniG = [(m, f) for m in methods for f in (OK, Fault("rst-after-request"), Fault("surplus"), Fault("fin-after-response-bytes", 40))]
@@ -310,10 +313,15 @@ def _judge_all(ctx, cases, recs, flavor, rerun_bin):
                 ctx.violation(v["key"], v["what"], d)
     # timing-sensitive candidates: re-run the case alone; only a reproduced miss is a verdict
     done_keys = Counter_()
+    verdicts = {}
     for c, v, d in timing:
         ctx.obs("timing_candidates")
-        if done_keys[v["key"]] >= 4:
-            ctx.inconcl("timing candidate %s in case %s not re-run (4 of the same key already were)" % (v["key"], c.id))
+        if done_keys[v["key"]] >= 2:
+            ctx.obs("timing_candidates_not_rerun_same_key")
+            if verdicts.get(v["key"]) is False:
+                continue          # the same key did not reproduce in isolation twice already
+            if verdicts.get(v["key"]) is None:
+                ctx.inconcl("timing candidate %s in case %s not re-run" % (v["key"], c.id))
             continue
         done_keys[v["key"]] += 1
         repro = 0
@@ -334,8 +342,10 @@ def _judge_all(ctx, cases, recs, flavor, rerun_bin):
             d["reproduced_in_isolation"] = repro
             d["isolated_run"] = last["detail"] if last else None
             ctx.violation(v["key"], v["what"], d)
+            verdicts[v["key"]] = True
         else:
             ctx.obs("timing_candidates_not_reproduced")
+            verdicts.setdefault(v["key"], False)
 
 
 def Counter_():
@@ -378,10 +388,13 @@ def run(ctx):
                 ctx.inconcl(p)
             _judge_all(ctx, qcases, r2, fl, plain)
     ctx.extra["enumerated_subspaces"] = spaces
-    ctx.exhaustive = bool(thorough and all(s["complete"] for k, s in spaces.items() if s["size"] is not None and
-                                           not k.startswith(("blackholed", "kept-alive-silence"))))
-    ctx.extra["exhaustive_note"] = ("sub-spaces with complete=true were enumerated in full (every element run and judged); "
-                                    "concurrent / black-hole / kept-alive-silence sub-spaces are seeded samples")
+    # top-level "exhaustive" stays false: the concurrent-callers sub-space (schedules) is a seeded sample and the quick
+    # tier samples every sub-space; per-sub-space flags say which finite fault spaces were enumerated in full
+    ctx.exhaustive = False
+    ctx.extra["exhaustive_subspaces"] = sorted(k for k, s in spaces.items() if s["exhaustive"])
+    ctx.extra["exhaustive_note"] = ("sub-spaces flagged exhaustive=true were enumerated in full (every element run and judged, "
+                                    "subject to 'cases without a record' listed under inconclusive); all others are seeded, "
+                                    "boundary-biased samples")
     ctx.rule = ("per logical request (unique token in path, header, body): transmissions = request occurrences found by a reference "
                 "request framer in the bytes each connection carried (client-side send() log, cross-checked with the bytes the scripted "
                 "server received). Rules: non-idempotent (not exactly GET/HEAD/PUT/DELETE/OPTIONS/TRACE) => <=1 transmission; any method => "
